@@ -84,6 +84,49 @@ func colAt(c []colour, i int) colour {
 	return colNone
 }
 
+// ruleC07c: relative bounds are anchored at the raw clock; the window is
+// handed to SubMerge untouched.
+func ruleC07c(c *Ctx, rule string) {
+	c.describe(rule, "flow: relative ASOF/UNTIL offsets are added to the raw 'now' parameter (rounding happens once, afterwards, on the resulting bound); (*node).doUpdate hands the source column to SubMerge unmodified so that its shift-aware truncation sees the data before asOf")
+	fn := c.need(rule, "z/planner.asOfUntilFor")
+	if fn != nil {
+		var now *ssa.Parameter
+		for _, p := range fn.Params {
+			if typeStr(p.Type()) == "time.Time" {
+				now = p
+			}
+		}
+		n := 0
+		for _, call := range callsTo(fn, "(time.Time).Add") {
+			a := call.Common().Args
+			if !isFieldLoad(a[1], "z/sql.Query.AsOfOffset") && !isFieldLoad(a[1], "z/sql.Query.UntilOffset") {
+				continue
+			}
+			n++
+			c.check(rule, "asOfUntilFor: offsets are relative to the raw clock", call.Pos(), now != nil && a[0] == ssa.Value(now), "now.Add(offset) on the unmodified parameter", "the relative offset is added to a value other than the raw 'now' (e.g. a pre-rounded clock): with an unaligned clock and an offset that is not a multiple of the resolution the window is shifted by a period")
+		}
+		c.floor(rule, "relative-offset additions in asOfUntilFor", n, 2)
+	}
+	if du := c.need(rule, "(*z/bytetree.node).doUpdate"); du != nil {
+		var valsP *ssa.Parameter
+		for _, p := range du.Params {
+			if isSeqContainer(p.Type()) {
+				valsP = p
+			}
+		}
+		for _, call := range callsTo(du, "(z/encoding.Sequence).SubMerge") {
+			a := call.Common().Args[1]
+			ok := false
+			if u, isU := strip(a).(*ssa.UnOp); isU {
+				if ia, isI := u.X.(*ssa.IndexAddr); isI && valsP != nil && ia.X == ssa.Value(valsP) {
+					ok = true
+				}
+			}
+			c.check(rule, "doUpdate: SubMerge receives the source column unmodified", call.Pos(), ok, "other = vals[i]", "the column handed to SubMerge is pre-trimmed/transformed: SubMerge's shift-aware truncation (asOf - shift) loses the periods just before asOf that shifted fields need")
+		}
+	}
+}
+
 func ruleC07b(c *Ctx, rule string) {
 	c.describe(rule, "dom: planLocal rejects a query whose asOf lies before the source's asOf before any operator is built; getQueryable's default window is (until - RetentionPeriod, until] with until = RoundTimeUp(clock.Now()); group.GetAsOf/GetUntil fall back to the source when unset")
 	if pl := c.need(rule, "z/planner.planLocal"); pl != nil {
@@ -166,6 +209,6 @@ func init() {
 		Explanation: "Decides the structural clause 'asOf and until are never confused and the range check precedes planning': role colouring of every store/argument/return that carries a time bound by name across six packages; positional wiring of asOfUntilFor/resolutionFor; TIMERANGE from/to → AsOf/Until; the asOf-before-table-asOf error precedes planning; the default window derives from the clock and the retention period.",
 		NotDecided:  []string{"the three rounding rules (RoundTimeUp / UntilUp / UntilDown) at period boundaries", "Truncate/SubMerge alignment cases (values)"},
 		Assumptions: []string{"carrier roles follow the identifiers asOf/until, AsOf/Until, GetAsOf/GetUntil used consistently in this code base"},
-		Rules:       []func(*Ctx){func(c *Ctx) { ruleC07a(c, "C07.a") }, func(c *Ctx) { ruleC07b(c, "C07.b") }},
+		Rules:       []func(*Ctx){func(c *Ctx) { ruleC07a(c, "C07.a") }, func(c *Ctx) { ruleC07b(c, "C07.b") }, func(c *Ctx) { ruleC07c(c, "C07.c") }},
 	})
 }
